@@ -155,6 +155,9 @@ def realise(spec):
         members = spec[1] if k not in ("alignedstruct", "union") else spec[2]
         subs = []
         for name, s in members:
+            if s[0] == "docs" and len(s) > 3 and s[3] == "outer" and name:
+                subs.append((name / R(s[1])) * s[2])     # "name" / field * "docs": docs applied to the named member
+                continue
             c = R(s)
             subs.append((name / c) if name else c)
         if k == "struct":
